@@ -69,4 +69,18 @@ offer, queues the request and wakes the router, in this order; wake-ups are coal
 theorem C07_code_variant : Router.codeVariant = Router.fixed ∧ RSys.codeVariant = RSys.fixed ∧ Gen.shape_shutdownOrder = true ∧
     Gen.shape_shutdownIdempotent = true ∧ Gen.shape_addRouteOrder = true ∧ Gen.shape_wakeCoalesced = true := by decide
 
+/-- **C07_undecodable_isolated** — a message that does not decode as the route's type, arriving on a crossbeam-forwarding route (event `badFwd`; on a
+user callback route the callback receives the decode error as an ordinary invocation): the repaired forwarding handler (variant
+flag `fwdUnwraps = false`, regenerated from `route_ipc_receiver_to_crossbeam_sender`) drops it and *nothing else changes* — no
+panic, the router keeps running, every registration stays; together with `C07_dispatch` (whose event streams may contain such
+events anywhere: the projection of a route's traffic skips them) every other message of every route is still delivered exactly
+once, in order. -/
+theorem C07_undecodable_isolated (st : St) (i r : Nat) (hs : st.stopped = false) (hl : lookup st.handlers i = some r) :
+    step fixed st (.badFwd i) = st ∧ Router.codeVariant.fwdUnwraps = false := by
+  refine ⟨?_, by decide⟩
+  unfold step; simp [hs, hl, fixed]
+
+/-- before the repair (D19): the router thread panics -/
+example : (step legacy ⟨[(1, 7)], 2, [], false, []⟩ (.badFwd 1)).log = [.panic] := by decide
+
 end C07
